@@ -368,7 +368,8 @@ func staleClients(oldText, newText string, newCfg *config.Config) string {
 		return ""
 	}
 	for _, sc := range newCfg.ScrapeConfigs {
-		if sc.HTTPClientConfig.ProxyURL.URL != nil {
+		// (an oauth2 client asks the identity provider for a token first; there is none to ask here)
+		if sc.HTTPClientConfig.ProxyURL.URL != nil || sc.HTTPClientConfig.OAuth2 != nil {
 			continue
 		}
 		l, f := presented(long, sc.JobName), presented(fresh, sc.JobName)
@@ -413,7 +414,8 @@ func failedReload(oldText, newText, oldHash, newHash string, oldCfg, newCfg *con
 		return fmt.Sprintf("after a reload whose last callback failed the process reports hash %s, which is neither the old (%s) nor the new (%s) content's", reported, oldHash, newHash)
 	}
 	for _, sc := range refCfg.ScrapeConfigs {
-		if sc.HTTPClientConfig.ProxyURL.URL != nil {
+		// (an oauth2 client asks the identity provider for a token first; there is none to ask here)
+		if sc.HTTPClientConfig.ProxyURL.URL != nil || sc.HTTPClientConfig.OAuth2 != nil {
 			continue
 		}
 		l, f := presented(long, sc.JobName), presented(ref, sc.JobName)
